@@ -275,7 +275,8 @@ Definition mon_C08 (m : mstate) (pre : obs) (o : op) (sc : script) (x : out) (po
       (chk (N.eqb rsig sig) 8 ++                       (* the receipt binds the request's own signature *)
        chk (N.eqb start (m_height m)) 8 ++             (* start block = the tower's height at acceptance *)
        (* issued only for something stored, responded to, or dropped after its dispute was seen *)
-       chk (existsb (fun a => uuid_eqb (app_uuid a) (loc, u) && blob_eqb (a_blob a) b && N.eqb (a_delay a) delay) (o_apps post)
+       chk (existsb (fun a => uuid_eqb (app_uuid a) (loc, u) && blob_eqb (a_blob a) b && N.eqb (a_delay a) delay
+                                && N.eqb (a_sig a) sig) (o_apps post)
             || existsb (fun k => uuid_eqb (trk_uuid k) (loc, u)) (o_trks post)
             || (in_cache m loc &&
                 match decrypt b loc with
